@@ -221,6 +221,36 @@ func (e *specEnv) ev(ex SExpr) Value {
 		n := e.sub()
 		var bound []*Term
 		var guards []*Term
+		if !ex.Forall && e.pol > 0 && len(ex.Wits) == len(ex.Vars) {
+			// an existential goal with witnesses for all binders: prove the body of the witnesses (stronger)
+			all := true
+			for _, w := range ex.Wits {
+				if w == nil {
+					all = false
+				}
+			}
+			if all {
+				for i, b := range ex.Vars {
+					ts := b.Type
+					if ts == "" {
+						ts = "int"
+					}
+					t := e.resolveType(ts)
+					wv := e.x.coerce(e.s, n.ev(ex.Wits[i]), t)
+					n.vars[b.Name] = wv
+					switch kindOf(t) {
+					case kString, kRef, kIface, kOpaque:
+						guards = append(guards, c.Ge(wv.Term, c.Int(0)))
+					case kInt:
+						if isUnsigned(t) {
+							guards = append(guards, c.Ge(wv.Term, c.Int(0)))
+						}
+					}
+				}
+				body := n.evalBool(ex.Body)
+				return Value{T: boolT, Term: c.And(c.And(guards...), body)}
+			}
+		}
 		for _, b := range ex.Vars {
 			ts := b.Type
 			if ts == "" {
@@ -861,6 +891,30 @@ func (e *specEnv) evalModTargets(ex SExpr) []modTarget {
 		return []modTarget{{prefix: pre, match: func(ref, idx *Term) *Term { return c.Eq(ref, base.Term) }}}
 	case SDeref:
 		return fieldsOf(e.ev(ex.X))
+	case SIndex:
+		// m[k]: the entry of key k (presence, value) and the cardinality of m; s[i]: one slice cell
+		base := e.ev(ex.X)
+		switch bt := base.T.Underlying().(type) {
+		case *types.Map:
+			k := x.coerce(e.s, e.ev(ex.I), bt.Key())
+			if k.Term == nil {
+				e.fail("modifies m[k]: composite key")
+			}
+			x.h.schema[mapDomRegion(base.T)] = []regionSchema{{mapDomRegion(base.T), 2, SBool}}
+			x.h.schema[mapCardRegion(base.T)] = []regionSchema{{mapCardRegion(base.T), 1, SInt}}
+			reg(mapValRegion(base.T), 2, bt.Elem())
+			entry := func(ref, idx *Term) *Term { return c.And(c.Eq(ref, base.Term), c.Eq(idx, k.Term)) }
+			whole := func(ref, idx *Term) *Term { return c.Eq(ref, base.Term) }
+			return []modTarget{{prefix: mapDomRegion(base.T), match: entry}, {prefix: mapValRegion(base.T), match: entry}, {prefix: mapCardRegion(base.T), match: whole}}
+		case *types.Slice:
+			i := e.ev(ex.I)
+			pre := sliceRegion(bt.Elem())
+			reg(pre, 2, bt.Elem())
+			return []modTarget{{prefix: pre, match: func(ref, idx *Term) *Term {
+				return c.And(c.Eq(ref, base.Sl.Arr), c.Eq(idx, c.Add(base.Sl.Off, i.Term)))
+			}}}
+		}
+		e.fail("modifies x[i]: x is %s", typeStr(base.T))
 	}
 	e.fail("unsupported modifies target")
 	return nil
